@@ -199,8 +199,10 @@ impl<'a, N: Normalizer> XmlSerializer<'a, N> {
                 r
             }
             Prefix(prefix_id, namespace_id) => {
-                // we don't want to output the xml prefix
-                if *namespace_id == self.xot.xml_namespace() {
+                // we don't want to output the xml prefix (another prefix, or
+                // the default namespace, bound to the xml namespace is a
+                // declaration like any other: names are written with it)
+                if *prefix_id == self.xot.xml_prefix() && *namespace_id == self.xot.xml_namespace() {
                     return Ok(OutputToken {
                         space: false,
                         text: "".to_string(),
